@@ -187,8 +187,8 @@ func (x *Exec) havocAll(st *State, keepTypes ...string) {
 			if strings.HasPrefix(en, "*") {
 				ep = "E:*" + x.fn.Pkg.Pkg.Name() + "." + en[1:]
 			}
-			if en == "byte" {
-				ep = "E:byte"
+			if en == "byte" || en == "int" || en == "bool" || en == "string" {
+				ep = "E:" + en // elements of basic type carry no package prefix
 			}
 			keyMu.Lock()
 			var ks []string
